@@ -17,7 +17,7 @@ func init() {
 		Explanation: "Decides the data flow that makes 'dealt in' equal 'eligible': (R1) at open the dealt-in flag of every player (loop over the full list) is copied from the seat manager's eligibility answer for that same player, only after positions were initialised/rotated, and every failure returns the old table; (R2) the hand list is built only from flagged players; (R3) eligibility ≡ seated-in ∧ not waiting ∧ has chips; (R4) every bankroll writer outside construction refreshes the seat manager's has-chips flag for that player (settlement: through the continue step's loop over all players with Bankroll > 0); (R5) both assigners set the waiting flag of a new seat from 'positions initialised ? between dealer and BB : false', and the predicate is false for short deck; (R6) the rotation re-evaluates the waiting flag only for non-eligible seats; (R7) fewer than two eligible ⇒ the rotation refuses and the open step reports the open-failed error; (R8) the seated-in flag is set together with the seat manager's. NOT decided: 'never misses more than three hands', eligibility persistence over histories.",
 		Rules: map[string]string{
 			"R1": "dealt-in flag ← SeatManager.IsPlayerActive(same player) for every player, after init/rotate; failures return the old table; success exits of the open step return the clone after a successful rotation/initialisation; initialise only when never initialised, rotate otherwise, one site each; the dealt-in flag is written only by the open and continue steps from IsPlayerActive(same player)",
-			"R2": "hand list built only from players whose dealt-in flag is set",
+			"R2": "hand list built only from players whose dealt-in flag is set; the scans that build it cover one full circle of seats, skip only unset entries and start as specified in C06.R10",
 			"R3": "eligibility definition",
 			"R4": "has-chips refresh pairing for every bankroll writer",
 			"R5": "waiting flag on seating in both assigners; predicate false for short deck / uninitialised; the waiting arc is exact: short deck → false, wrapping arc → true iff some i in (dealer, bb+N) has i%N == target, else target < bb ∧ target > dealer; asked as arc(dealer seat, bb seat, own seat)",
@@ -204,6 +204,8 @@ func checkC05(c *Ctx) {
 			c.Check(ok, "R2", "hand-list-append", p.InstrPos(ci), "appended player is flagged dealt-in", "a player is put on the hand list without testing that player's dealt-in flag (appended index "+elem.String()+")")
 		}
 		c.Min("R2", "appends to the hand list", n, 3)
+		// … and every flagged player is on it: the scans cover every seat and skip only unset entries
+		checkHandListStart(c, "R2")
 	}
 
 	// ---------------- R3
